@@ -69,11 +69,16 @@ def _assess_table(ck, repo, nf):
     base_atoms = {a for v in list(env0.values()) + list(old.values()) for a in v.atoms()}
     # ---- the order model ---------------------------------------------------------------------------------------------------------
     model = OrderModel()
-    c1 = model.cluster([env0[RET], old[MIN], old[BEST]])
+    # entry invariant: min_return >= best_min_return (a window whose minimum fell below the best is cut at once and min_return is reset
+    # to its large sentinel, which the table below checks; the sentinel is trusted to exceed every return)
+    c1 = model.cluster([env0[RET], old[MIN], old[BEST]], constraint=lambda r: r[1] >= r[2])
     model.derive(m1.single_atom(), "min", c1, 0, 1)
-    model.cluster([e1, old[M]])
-    model.cluster([env0[EPOCH], env0[SBC], env0[EPOCH] + t1], constraint=lambda r: r[0] < r[2])      # window steps > 0
-    model.cluster([Poly.const(0), Poly.const(1), env0[SPE], t1], constraint=lambda r: r[0] < r[1] <= r[2] <= r[3])   # 1 <= episode steps <= window steps
+    # entry invariant of the documented behaviour: episodes_since_update < max_episodes_before_update (the counter is reset when it reaches
+    # the window size, and the window size only changes together with a reset): worlds with e + 1 > M are not reachable
+    model.cluster([e1, old[M]], constraint=lambda r: r[0] <= r[1])
+    # 1 <= episode steps <= window steps, and the distance to the switch (steps_before_checkpointing - epoch) anywhere among them: every
+    # comparison of epoch (+ steps) with the threshold is a comparison inside this one cluster (differences are matched, not operands)
+    model.cluster([Poly.const(0), Poly.const(1), env0[SPE], t1, env0[SBC] - env0[EPOCH]], constraint=lambda r: r[0] < r[1] <= r[2] <= r[3])
     CUT = ("cmp", "lt", m1, old[BEST])
     FULLEQ = ("cmp", "eq", e1, old[M])
     SWC = ("and", (("cmp", "lt", env0[EPOCH], env0[SBC]), ("not", ("cmp", "lt", env0[EPOCH] + t1, env0[SBC]))))
